@@ -1,7 +1,7 @@
 (** C15 - Parsing depends only on tokens and the documented grammar, precedence and sugar. (operator layer)
     Model: Parse/PrecClimb.v (mirrors prec_climb.rs, the precedence/associativity of BinaryOp and Term::climb). *)
 From Coq Require Import List Bool Arith.
-From JaqV Require Import Val.Err Parse.PrecClimb Proofs.PrecLaws Base.Bytes Parse.Lex Proofs.LexLaws.
+From JaqV Require Import Val.Err Parse.PrecClimb Proofs.PrecLaws Proofs.PrecGeneral Base.Bytes Parse.Lex Proofs.LexLaws.
 Import ListNotations.
 
 (** for every chain of operands and operators, of any length, the tree reads back in order as exactly that chain:
@@ -10,6 +10,33 @@ Theorem climb_roundtrip_sequence : forall x rest,
   exists rest', flat (climb_plain x rest) ++ flat_chain rest' = flat x ++ flat_chain rest.
 Proof. exact climb_preserves_sequence. Qed.
 Print Assumptions climb_roundtrip_sequence.
+
+(** for chains of any length the whole chain is consumed and every node of the tree respects the table: the operator
+    at the root of a left operand binds tighter than its parent (or equally, on a left-associative level), the one at the
+    root of a right operand binds tighter (or equally, on a right-associative level); the leaves are the operands.
+    With the sequence theorem above this fixes the tree: it is the one that the table's parentheses describe. *)
+Theorem climb_respects_table : forall x rest,
+  let P e := e = x \/ In e (map snd rest) in
+  climb1 (S (2 * length rest)) x rest 0 = (climb_plain x rest, []) /\ okt P (climb_plain x rest).
+Proof. exact PrecGeneral.climb_respects_table. Qed.
+Print Assumptions climb_respects_table.
+
+(** two trees over atoms that respect the table and read as the same operand/operator sequence are the same tree ... *)
+Theorem table_tree_unique : forall t1 t2, okt atom t1 -> okt atom t2 -> seq t1 = seq t2 -> t1 = t2.
+Proof. exact PrecGeneral.table_tree_unique. Qed.
+Print Assumptions table_tree_unique.
+
+(** ... so every fully parenthesised reading of a chain (of any length) that respects the table is the tree the parser
+    builds: inserting the parentheses that the table implies, or removing them, never changes the program *)
+Theorem climb_is_the_table_tree : forall x rest t, atom x -> Forall (fun ot => atom (snd ot)) rest ->
+  okt atom t -> seq t = seq x ++ chain_seq rest -> climb_plain x rest = t.
+Proof. exact PrecGeneral.climb_is_the_table_tree. Qed.
+Print Assumptions climb_is_the_table_tree.
+
+(** associativity is a property of the precedence level *)
+Theorem assoc_by_level : forall a b, prec a = prec b -> right_assoc a = right_assoc b.
+Proof. exact PrecGeneral.assoc_by_level. Qed.
+Print Assumptions assoc_by_level.
 
 (** precedence levels and associativities are exactly those tabulated in the manual *)
 Theorem prec_table : forallb (fun o => (prec o =? doc_level o) && Bool.eqb (right_assoc o) (doc_right o)) all_ops = true.
